@@ -147,6 +147,17 @@ class Engine:
         e = self.ws.get_entity(uuid.UUID(uid))[0]
         if e is None and uid == self.model.root:
             e = self.ws.root
+        under_stale = False
+        if self.stale_reuse and e is None and uid in self.model.nodes:
+            a = self.model.nodes[uid].parent
+            while a in self.model.nodes and not under_stale:
+                under_stale = a in self.stale_reuse
+                a = self.model.nodes[a].parent
+        if under_stale or uid in self.stale_reuse and uid in self.model.nodes and (e is None or type(e).__name__ != self.model.nodes[uid].cls):
+            # the identifier was re-used while the node of a parent-route removal was still stored (open finding of C06): it
+            # resolves to that node, or to nothing, instead of the entity the history created - the history cannot act on it
+            self.rec.see("stale-node-resolutions")
+            raise ExpectedRefusal("identifier resolves to the stale node of a parent-route removal")
         if self.ref_policy == "strong" and e is not None:
             self.refs[uid] = e
         return e
